@@ -65,6 +65,7 @@ class Framer(tasking.Tasker):
             .frameCounter = frame name registry counter
 
             .moots = odict of moot framers to be cloned keyed by clone tag
+            .lineage = tuple of names of the originals this framer was cloned from
             .inode = prefix string for inode ioinit of do verb objects in framer
             .tag = main framer local unique clone tag when cloned or aux name if not
             .insularCount = number of insular clones used to create unique clone tag
@@ -116,6 +117,7 @@ class Framer(tasking.Tasker):
         self.frameCounter = 0 #frame name registry counter for framer
 
         self.moots = odict()  # moot framers to be cloned keyed by clone tag
+        self.lineage = ()  # names of the originals this framer was cloned from, outermost first
         self.inode = ''  # framer inode prefix
 
         self.tag = tag if tag else self.name  # main framer local unique clone tag when cloned or .name if not
@@ -297,6 +299,13 @@ class Framer(tasking.Tasker):
                                      human=human,
                                      count=count)
 
+            if original.name in self.lineage:  # a clone of original would clone original again, forever
+                raise excepting.ResolveError("Clone of original within itself",
+                                             name=original.name,
+                                             value=self.name,
+                                             human=human,
+                                             count=count )
+
             if tag in self.auxes:  # tag must be unique to framer
                 raise excepting.ResolveError("Clone tag already in use",
                                              name=self.name,
@@ -305,6 +314,7 @@ class Framer(tasking.Tasker):
                                              count=count )
             name = "_".join((self.surname, tag))  # replace name with full name
             clone = original.clone(name=name, tag=tag, schedule=schedule)
+            clone.lineage = self.lineage + (original.name, )
             self.auxes[tag] = clone
 
             # inode is new (aux verb clone via)  clone.inode is old (framer moot via)
